@@ -171,10 +171,15 @@ func (e *env) runTxnInner(calls []Call) (string, string) {
 	var exp []expect
 	// what every handler was handed, by operation id: it must be the result Commit reports for that operation
 	handed := map[keyvalue.OpID]keyvalue.OpResult{}
-	handler := func(kind string) keyvalue.OpHandler {
+	// ids of the calls handlers issued themselves, by the id of the operation whose handler issued them
+	nested := map[keyvalue.OpID]keyvalue.OpID{}
+	handler := func(kind, key string) keyvalue.OpHandler {
 		return keyvalue.OpHandlerFunc(func(t keyvalue.Transaction, result keyvalue.OpResult) error {
 			handed[result.Op] = result
 			switch kind {
+			case "nested":
+				// a handler that goes on working with the transaction it is handed: one more call, with its own id and result
+				nested[result.Op] = t.Get(key)
 			case "check":
 				// a handler that acts on what it is given: a failed operation makes it abort the transaction
 				if result.Err != nil {
@@ -214,12 +219,25 @@ func (e *env) runTxnInner(calls []Call) (string, string) {
 			if c.Handler == "" {
 				x.id = txn.Get(c.Key)
 			} else {
-				x.id = txn.GetHandler(c.Key, handler(c.Handler))
+				x.id = txn.GetHandler(c.Key, handler(c.Handler, c.Key))
 			}
 			if !aborted && (c.Handler == "abort" || c.Handler == "abort+err" || (c.Handler == "check" && x.wantErr == "notexist")) {
 				aborted = true
 			}
 			exp = append(exp, x)
+			if c.Handler == "nested" && x.wantErr != "aborted" {
+				nid, ok := nested[x.id]
+				if !ok {
+					return "handler:not-called", fmt.Sprintf("call %+v: its handler was not run", c)
+				}
+				nx := expect{call: Call{K: "get", Key: c.Key, Handler: "(issued by the handler of the call before)"}, isGet: true, id: nid}
+				if v, ok := e.model[c.Key]; ok {
+					nx.wantVal = v
+				} else {
+					nx.wantErr = "notexist"
+				}
+				exp = append(exp, nx)
+			}
 		case "set":
 			x := expect{call: c}
 			var rec keyvalue.FileRecord
@@ -251,12 +269,25 @@ func (e *env) runTxnInner(calls []Call) (string, string) {
 			if c.Handler == "" {
 				x.id = txn.Set(c.Key, rec, contents)
 			} else {
-				x.id = txn.SetHandler(c.Key, rec, contents, handler(c.Handler))
+				x.id = txn.SetHandler(c.Key, rec, contents, handler(c.Handler, c.Key))
 			}
 			if !aborted && (c.Handler == "abort" || c.Handler == "abort+err" || (c.Handler == "check" && x.wantErr == "baddata")) {
 				aborted = true
 			}
 			exp = append(exp, x)
+			if c.Handler == "nested" && x.wantErr != "aborted" {
+				nid, ok := nested[x.id]
+				if !ok {
+					return "handler:not-called", fmt.Sprintf("call %+v: its handler was not run", c)
+				}
+				nx := expect{call: Call{K: "get", Key: c.Key, Handler: "(issued by the handler of the call before)"}, isGet: true, id: nid}
+				if v, ok := e.model[c.Key]; ok {
+					nx.wantVal = v
+				} else {
+					nx.wantErr = "notexist"
+				}
+				exp = append(exp, nx)
+			}
 		case "finish":
 			finished = true
 			how = c.How
@@ -305,7 +336,7 @@ func (e *env) runTxnInner(calls []Call) (string, string) {
 			return "commit:op-id-reused", fmt.Sprintf("operation id %d was handed out twice (call %d %+v); calls %v", x.id, i, x.call, calls)
 		}
 		seen[x.id] = true
-		if h, ok := handed[x.id]; ok && (x.call.Handler == "ok" || x.call.Handler == "check" || x.call.Handler == "abort") && x.wantErr != "aborted" {
+		if h, ok := handed[x.id]; ok && (x.call.Handler == "ok" || x.call.Handler == "check" || x.call.Handler == "abort" || x.call.Handler == "nested") && x.wantErr != "aborted" {
 			if (h.Err == nil) != (r.Err == nil) {
 				return "commit:handler-saw-different-result", fmt.Sprintf("call %d (%+v): the handler was handed Err=%v, Commit reports Err=%v for the same operation", i, x.call, h.Err, r.Err)
 			}
@@ -385,7 +416,7 @@ func genCalls(t *rapid.T) []Call {
 		case 0, 1, 2, 3:
 			c := Call{K: "get", Key: rapid.SampledFrom(keys).Draw(t, "key")}
 			if rapid.Bool().Draw(t, "withHandler") {
-				c.Handler = rapid.SampledFrom([]string{"ok", "ok", "check", "check", "err", "abort", "abort+err"}).Draw(t, "handler")
+				c.Handler = rapid.SampledFrom([]string{"ok", "ok", "check", "check", "err", "abort", "abort+err", "nested", "nested"}).Draw(t, "handler")
 			}
 			calls = append(calls, c)
 		case 4, 5, 6, 7:
@@ -393,7 +424,7 @@ func genCalls(t *rapid.T) []Call {
 			c.Delete = rapid.IntRange(0, 4).Draw(t, "delete") == 0
 			c.BadData = !c.Delete && rapid.IntRange(0, 5).Draw(t, "baddata") == 0
 			if rapid.Bool().Draw(t, "withHandler") {
-				c.Handler = rapid.SampledFrom([]string{"ok", "ok", "check", "check", "err", "abort", "abort+err"}).Draw(t, "handler")
+				c.Handler = rapid.SampledFrom([]string{"ok", "ok", "check", "check", "err", "abort", "abort+err", "nested", "nested"}).Draw(t, "handler")
 			}
 			calls = append(calls, c)
 		default:
@@ -415,7 +446,7 @@ func run(t *testing.T, impl string) {
 			if c.K == "set" {
 				sets++
 			}
-			if c.Handler == "err" || c.Handler == "abort" || c.Handler == "abort+err" {
+			if c.Handler == "err" || c.Handler == "abort" || c.Handler == "abort+err" || c.Handler == "nested" {
 				handlers++
 				rec.Class("handler:" + c.Handler)
 			}
